@@ -292,6 +292,21 @@ def run(mod, tier, seed, replay=None):
                                         "detail": corr_fail, "note": "no-failing-input-found"})
         violations.append(("correspondence-not-evaluable", path, [corr_fail[:300]]))
 
+    # ---- further proof obligations a module discharges on every run (e.g. theorems about a model that is
+    # re-translated from the current source): each {"name", "ok": True / False / None (= not applicable), "detail"}
+    obl_rows = []
+    if hasattr(mod, "obligations") and not replay:
+        try:
+            obl_rows = list(mod.obligations(ctx))
+        except Exception as e:
+            obl_rows = [{"name": "obligations", "ok": False, "detail": f"{type(e).__name__}: {e}"}]
+        for o in obl_rows:
+            if o["ok"] is False:
+                nrep += 1
+                path = write_replay(pid, nrep, {"property": pid, "kind": "proof-broken", "obligation": o["name"],
+                                                "detail": o["detail"], "note": "no-failing-input-found"})
+                violations.append(("proof-broken", path, [f"{o['name']}: {str(o['detail'])[:300]}"]))
+
     extra_cov = {}
     if hasattr(mod, "extra") and not replay:
         try:
@@ -327,6 +342,10 @@ def run(mod, tier, seed, replay=None):
         "known_findings_hit": [k.get("id") for k, _ in known_hits],
     }
     cov.update(extra_cov)
+    if obl_rows:
+        cov["obligations"] += sum(1 for o in obl_rows if o["ok"] is not None)
+        cov["discharged"] += sum(1 for o in obl_rows if o["ok"] is True)
+        cov["further_obligations"] = [{k: (str(v)[:300] if k == "detail" else v) for k, v in o.items()} for o in obl_rows]
     ev = {"property_id": pid, "tier": tier, "seed": seed, "level": getattr(mod, "LEVEL", "proof"),
           "coverage": cov, "assumptions": getattr(mod, "ASSUMPTIONS", []),
           "wall_s": round(time.time() - ctx.t0, 2), "violations": len(violations)}
